@@ -1,6 +1,7 @@
 package rules
 
 import (
+	"regexp"
 	"fmt"
 	"go/token"
 	"sort"
@@ -17,7 +18,8 @@ func init() { register("C14", C14) }
 type bytesBufModel struct{ data []byte }
 type bytesReaderModel struct{ data []byte }
 
-func installBytesAndRegexp(ev *eval.Evaluator, fileLines []string) {
+// installBytesBuffer: bytes.Buffer as an append-only byte store (installed in every evaluator).
+func installBytesBuffer(ev *eval.Evaluator) {
 	ev.Extern["(*bytes.Buffer).Write"] = func(ev *eval.Evaluator, pos token.Pos, recv eval.Value, args []eval.Value) eval.Value {
 		r := recv.(*eval.Ref)
 		m, ok := r.Get().(*bytesBufModel)
@@ -97,19 +99,71 @@ func installBytesAndRegexp(ev *eval.Evaluator, fileLines []string) {
 		}
 		return eval.NewSlice()
 	}
+	ev.Extern["(*bytes.Buffer).Reset"] = func(ev *eval.Evaluator, pos token.Pos, recv eval.Value, args []eval.Value) eval.Value {
+		bufOf(recv).data = nil
+		return nil
+	}
+	ev.Extern["(*bytes.Buffer).Truncate"] = func(ev *eval.Evaluator, pos token.Pos, recv eval.Value, args []eval.Value) eval.Value {
+		m := bufOf(recv)
+		l, ok := args[0].(eval.Lin)
+		if !ok || !l.IsConst() || l.C < 0 || int(l.C) > len(m.data) {
+			ev.Failf(pos, "bytes.Buffer.Truncate out of range")
+		}
+		m.data = m.data[:l.C]
+		return nil
+	}
+}
+
+func installBytesAndRegexp(ev *eval.Evaluator, fileLines []string) {
+	installBytesBuffer(ev)
 	ev.Extern["bytes.NewReader"] = func(ev *eval.Evaluator, pos token.Pos, recv eval.Value, args []eval.Value) eval.Value {
 		s, _ := bytesStr(args[0])
 		m := &bytesReaderModel{data: []byte(s)}
 		return &eval.Ref{Get: func() eval.Value { return m }, Set: func(eval.Value) {}}
 	}
+	// regular expressions on concrete text are decided by the library itself
+	match := func(pat, text eval.Value) (bool, bool) {
+		ps, ok1 := pat.(eval.Str)
+		ts, ok2 := text.(eval.Str)
+		if !ok1 || !ok2 || !ps.IsConst() || !ts.IsConst() {
+			return false, false
+		}
+		re, err := regexp.Compile(ps.Const())
+		if err != nil {
+			return false, false
+		}
+		return re.MatchString(ts.Const()), true
+	}
 	ev.Extern["regexp.MatchString"] = func(ev *eval.Evaluator, pos token.Pos, recv eval.Value, args []eval.Value) eval.Value {
-		return eval.Tuple{false, eval.Nil{}}
+		m, ok := match(args[0], args[1])
+		if !ok {
+			ev.Failf(pos, "regexp.MatchString on a symbolic pattern or text")
+		}
+		return eval.Tuple{m, eval.Nil{}}
+	}
+	ev.Extern["regexp.MustCompile"] = func(ev *eval.Evaluator, pos token.Pos, recv eval.Value, args []eval.Value) eval.Value {
+		s, _ := args[0].(eval.Str)
+		return &eval.Handle{Dyn: "*regexp.Regexp", Tag: s.Const()}
+	}
+	ev.Extern["(*regexp.Regexp).MatchString"] = func(ev *eval.Evaluator, pos token.Pos, recv eval.Value, args []eval.Value) eval.Value {
+		h, _ := unref(recv).(*eval.Handle)
+		if h == nil {
+			ev.Failf(pos, "MatchString on an unknown regular expression")
+		}
+		m, ok := match(eval.S(h.Tag), args[0])
+		if !ok {
+			ev.Failf(pos, "(*Regexp).MatchString on symbolic text")
+		}
+		return m
 	}
 	// scanner over either the annotation file or the in-memory FASTA section
 	installScanner(ev, fileLines)
 	ev.Extern["bufio.NewScanner"] = func(ev *eval.Evaluator, pos token.Pos, recv eval.Value, args []eval.Value) eval.Value {
 		lines := fileLines
 		if m, ok := unref(args[0]).(*bytesReaderModel); ok {
+			lines = strings.Split(strings.TrimSuffix(string(m.data), "\n"), "\n")
+		}
+		if m, ok := unref(args[0]).(*bytesBufModel); ok { // a *bytes.Buffer is a reader of what was written to it
 			lines = strings.Split(strings.TrimSuffix(string(m.data), "\n"), "\n")
 		}
 		sm := &scanModel{lines: lines}
@@ -286,8 +340,8 @@ func c14Text(c *core.Ctx) {
 			continue
 		}
 		ft := fv.(eval.Tuple)
-		if _, isErr := ft[1].(eval.ErrVal); isErr {
-			bad = append(bad, tc.name+": ReadGFF rejects a valid GFF3 text")
+		if e, isErr := ft[1].(eval.ErrVal); isErr {
+			bad = append(bad, tc.name+": ReadGFF rejects a valid GFF3 text ("+eval.Show(e)+")")
 			continue
 		}
 		gffStruct := ft[0].(*eval.StructVal)
